@@ -1,0 +1,19 @@
+//go:build verif
+
+// Machine-checked contracts for package mpx (comment-only; read by /verif/govc).
+package mpx
+
+//@ package github.com/basecomplextech/spec/mpx
+
+// ---- client back-off (C19)
+
+//@ func reconnectTimeout
+//@   safety[C19]
+//@   requires attempt >= 0
+//@   ensures[C19] attempt >= 2 ==> result == backoffNs(attempt)
+//@   ensures[C19] attempt >= 2 ==> 25000000 <= result && result <= 1000000000
+//@   canary[C19] attempt >= 2 ==> result < 1000000000
+
+//@ func ghostBackoffMonotone
+//@   requires attempt >= 2 && attempt < 9223372036854775807
+//@   ensures[C19] result0 <= result1 && 25000000 <= result0 && result1 <= 1000000000
